@@ -371,6 +371,9 @@ func symBinop(op token.Token, t types.Type, x, y value) value {
 	}
 	a, b := asTerm(x), asTerm(y)
 	if a.k == sReal || b.k == sReal {
+		if r, ok := realCmpOffGrid(op, a, b); ok {
+			return r
+		}
 		return realBinop(op, toReal(a), toReal(b))
 	}
 	_, _, signed, _ := symSortOf(t)
